@@ -15,53 +15,53 @@ import JubakoModel.Lemmas.Codec
 namespace Jubako
 
 /-- (name, offset, width) of every field of a layout starting at `o` -/
-def fieldOffsets : List (String × Nat) → Nat → List (String × Nat × Nat)
+def srcFieldOffsets : List (String × Nat) → Nat → List (String × Nat × Nat)
   | [], _ => []
-  | (n, w) :: rest, o => (n, o, w) :: fieldOffsets rest (o + w)
+  | (n, w) :: rest, o => (n, o, w) :: srcFieldOffsets rest (o + w)
 
-def layoutSize (spec : List (String × Nat)) : Nat := (spec.map (·.2)).sum
+def srcLayoutSize (spec : List (String × Nat)) : Nat := (spec.map (·.2)).sum
 
 /-- the bytes of a structure laid out according to `spec`, `f` giving the bytes of each field -/
-def layoutBytes (spec : List (String × Nat)) (f : String → Bytes) : Bytes :=
+def srcLayoutBytes (spec : List (String × Nat)) (f : String → Bytes) : Bytes :=
   (spec.map (fun p => f p.1)).flatten
 
-theorem layoutBytes_slice_aux (spec : List (String × Nat)) (f : String → Bytes)
+theorem srcLayoutBytes_slice_aux (spec : List (String × Nat)) (f : String → Bytes)
     (hw : ∀ p ∈ spec, (f p.1).length = p.2) (pre : Bytes) :
-    ∀ n off w, (n, off, w) ∈ fieldOffsets spec pre.length →
-      slice (pre ++ layoutBytes spec f) off w = f n := by
+    ∀ n off w, (n, off, w) ∈ srcFieldOffsets spec pre.length →
+      slice (pre ++ srcLayoutBytes spec f) off w = f n := by
   induction spec generalizing pre with
   | nil => intro n off w h; cases h
   | cons p rest ih =>
     obtain ⟨n0, w0⟩ := p
     intro n off w h
     have hw0 : (f n0).length = w0 := hw (n0, w0) List.mem_cons_self
-    simp only [fieldOffsets, List.mem_cons] at h
+    simp only [srcFieldOffsets, List.mem_cons] at h
     rcases h with h | h
     · obtain ⟨rfl, rfl, rfl⟩ := Prod.mk.injEq .. ▸ (by simpa using h : n = n0 ∧ off = pre.length ∧ w = w0)
-      simp only [layoutBytes, List.map_cons, List.flatten_cons, slice]
+      simp only [srcLayoutBytes, List.map_cons, List.flatten_cons, slice]
       rw [List.drop_append_of_le_length (Nat.le_refl _), List.drop_length, List.nil_append,
         ← hw0, List.take_left']
       rfl
     · have := ih (fun q hq => hw q (List.mem_cons_of_mem _ hq)) (pre ++ f n0) n off w
         (by rw [List.length_append, hw0]; exact h)
-      simpa [layoutBytes, List.append_assoc] using this
+      simpa [srcLayoutBytes, List.append_assoc] using this
 
 /-- **every field sits where the layout says** -/
-theorem layoutBytes_slice (spec : List (String × Nat)) (f : String → Bytes)
+theorem srcLayoutBytes_slice (spec : List (String × Nat)) (f : String → Bytes)
     (hw : ∀ p ∈ spec, (f p.1).length = p.2) :
-    ∀ n off w, (n, off, w) ∈ fieldOffsets spec 0 → slice (layoutBytes spec f) off w = f n := by
+    ∀ n off w, (n, off, w) ∈ srcFieldOffsets spec 0 → slice (srcLayoutBytes spec f) off w = f n := by
   intro n off w h
-  simpa using layoutBytes_slice_aux spec f hw [] n off w h
+  simpa using srcLayoutBytes_slice_aux spec f hw [] n off w h
 
-theorem layoutBytes_length (spec : List (String × Nat)) (f : String → Bytes)
-    (hw : ∀ p ∈ spec, (f p.1).length = p.2) : (layoutBytes spec f).length = layoutSize spec := by
+theorem srcLayoutBytes_length (spec : List (String × Nat)) (f : String → Bytes)
+    (hw : ∀ p ∈ spec, (f p.1).length = p.2) : (srcLayoutBytes spec f).length = srcLayoutSize spec := by
   induction spec with
   | nil => rfl
   | cons p rest ih =>
-    simp only [layoutBytes, List.map_cons, List.flatten_cons, List.length_append, layoutSize, List.sum_cons]
+    simp only [srcLayoutBytes, List.map_cons, List.flatten_cons, List.length_append, srcLayoutSize, List.sum_cons]
     rw [hw p List.mem_cons_self]
     have := ih (fun q hq => hw q (List.mem_cons_of_mem _ hq))
-    simp only [layoutBytes, layoutSize] at this
+    simp only [srcLayoutBytes, srcLayoutSize] at this
     rw [this]
 
 /-! ### writer and reader agree in the source, structure by structure -/
@@ -92,8 +92,8 @@ def packHeaderField (h : PackHeader) (name : String) : Bytes :=
   else []
 
 theorem packHeader_layout (h : PackHeader) :
-    h.encode = layoutBytes Generated.packHeaderSer (packHeaderField h) := by
-  simp [PackHeader.encode, layoutBytes, Generated.packHeaderSer, packHeaderField, Consts.headerPad1,
+    h.encode = srcLayoutBytes Generated.packHeaderSer (packHeaderField h) := by
+  simp [PackHeader.encode, srcLayoutBytes, Generated.packHeaderSer, packHeaderField, Consts.headerPad1,
     Consts.headerPad2]
 
 theorem packHeader_widths (h : PackHeader) (hw : h.WF) :
@@ -116,8 +116,8 @@ def packInfoField (p : PackInfo) (name : String) : Bytes :=
   else []
 
 theorem packInfo_layout (p : PackInfo) :
-    p.encode = layoutBytes Generated.packInfoSer (packInfoField p) := by
-  simp [PackInfo.encode, PackInfo.encodeFixed, layoutBytes, Generated.packInfoSer, packInfoField]
+    p.encode = srcLayoutBytes Generated.packInfoSer (packInfoField p) := by
+  simp [PackInfo.encode, PackInfo.encodeFixed, srcLayoutBytes, Generated.packInfoSer, packInfoField]
 
 def packLocatorField (l : PackLocator) (name : String) : Bytes :=
   if name = "uuid" then l.uuid
@@ -126,8 +126,8 @@ def packLocatorField (l : PackLocator) (name : String) : Bytes :=
   else []
 
 theorem packLocator_layout (l : PackLocator) :
-    l.encode = layoutBytes Generated.packLocatorSer (packLocatorField l) := by
-  simp [PackLocator.encode, layoutBytes, Generated.packLocatorSer, packLocatorField]
+    l.encode = srcLayoutBytes Generated.packLocatorSer (packLocatorField l) := by
+  simp [PackLocator.encode, srcLayoutBytes, Generated.packLocatorSer, packLocatorField]
 
 def containerHeaderField (h : ContainerHeader) (name : String) : Bytes :=
   if name = "pack_locators_pos" then leBytes h.locatorsPos 8
@@ -137,8 +137,8 @@ def containerHeaderField (h : ContainerHeader) (name : String) : Bytes :=
   else []
 
 theorem containerHeader_layout (h : ContainerHeader) :
-    h.encode = layoutBytes Generated.containerHeaderSer (containerHeaderField h) := by
-  simp [ContainerHeader.encode, layoutBytes, Generated.containerHeaderSer, containerHeaderField]
+    h.encode = srcLayoutBytes Generated.containerHeaderSer (containerHeaderField h) := by
+  simp [ContainerHeader.encode, srcLayoutBytes, Generated.containerHeaderSer, containerHeaderField]
 
 def contentHeaderField (h : ContentHeader) (name : String) : Bytes :=
   if name = "content_ptr_pos" then leBytes h.contentPtrPos 8
@@ -150,8 +150,8 @@ def contentHeaderField (h : ContentHeader) (name : String) : Bytes :=
   else []
 
 theorem contentHeader_layout (h : ContentHeader) :
-    h.encode = layoutBytes Generated.contentHeaderSer (contentHeaderField h) := by
-  simp [ContentHeader.encode, layoutBytes, Generated.contentHeaderSer, contentHeaderField]
+    h.encode = srcLayoutBytes Generated.contentHeaderSer (contentHeaderField h) := by
+  simp [ContentHeader.encode, srcLayoutBytes, Generated.contentHeaderSer, contentHeaderField]
 
 def directoryHeaderField (h : DirectoryHeader) (name : String) : Bytes :=
   if name = "index_ptr_pos" then leBytes h.indexPtrPos 8
@@ -165,8 +165,8 @@ def directoryHeaderField (h : DirectoryHeader) (name : String) : Bytes :=
   else []
 
 theorem directoryHeader_layout (h : DirectoryHeader) :
-    h.encode = layoutBytes Generated.directoryHeaderSer (directoryHeaderField h) := by
-  simp [DirectoryHeader.encode, layoutBytes, Generated.directoryHeaderSer, directoryHeaderField]
+    h.encode = srcLayoutBytes Generated.directoryHeaderSer (directoryHeaderField h) := by
+  simp [DirectoryHeader.encode, srcLayoutBytes, Generated.directoryHeaderSer, directoryHeaderField]
 
 def manifestHeaderField (m : ManifestHeader) (name : String) : Bytes :=
   if name = "pack_count" then leBytes m.packCount 2
@@ -176,48 +176,48 @@ def manifestHeaderField (m : ManifestHeader) (name : String) : Bytes :=
   else []
 
 theorem manifestHeader_layout (m : ManifestHeader) :
-    m.encode = layoutBytes Generated.manifestHeaderSer (manifestHeaderField m) := by
-  simp [ManifestHeader.encode, layoutBytes, Generated.manifestHeaderSer, manifestHeaderField]
+    m.encode = srcLayoutBytes Generated.manifestHeaderSer (manifestHeaderField m) := by
+  simp [ManifestHeader.encode, srcLayoutBytes, Generated.manifestHeaderSer, manifestHeaderField]
 
 /-! ### the offsets the model's decoders use are the offsets the source's reader implies -/
 
-theorem packHeader_reader_offsets : fieldOffsets Generated.packHeaderPar 0 =
+theorem packHeader_reader_offsets : srcFieldOffsets Generated.packHeaderPar 0 =
     [("magic", 0, 4), ("app_vendor_id", 4, 4), ("major_version", 8, 1), ("minor_version", 9, 1),
      ("uuid", 10, 16), ("flags", 26, 1), ("pad0", 27, 5), ("file_size", 32, 8),
-     ("check_info_pos", 40, 8), ("pad1", 48, 12)] ∧ layoutSize Generated.packHeaderPar = 60 := by
+     ("check_info_pos", 40, 8), ("pad1", 48, 12)] ∧ srcLayoutSize Generated.packHeaderPar = 60 := by
   constructor <;> decide
 
-theorem packInfo_reader_offsets : fieldOffsets Generated.packInfoPar 0 =
+theorem packInfo_reader_offsets : srcFieldOffsets Generated.packInfoPar 0 =
     [("uuid", 0, 16), ("pack_size", 16, 8), ("check_info_pos", 24, 8), ("pack_id", 32, 2),
      ("pack_kind", 34, 1), ("pack_group", 35, 1), ("free_data_id", 36, 2), ("pack_location", 38, 214)] ∧
-    layoutSize Generated.packInfoPar = 252 := by
+    srcLayoutSize Generated.packInfoPar = 252 := by
   constructor <;> decide
 
-theorem packLocator_reader_offsets : fieldOffsets Generated.packLocatorPar 0 =
+theorem packLocator_reader_offsets : srcFieldOffsets Generated.packLocatorPar 0 =
     [("uuid", 0, 16), ("pack_size", 16, 8), ("pack_pos", 24, 8)] ∧
-    layoutSize Generated.packLocatorPar = 32 := by
+    srcLayoutSize Generated.packLocatorPar = 32 := by
   constructor <;> decide
 
-theorem containerHeader_reader_offsets : fieldOffsets Generated.containerHeaderPar 0 =
+theorem containerHeader_reader_offsets : srcFieldOffsets Generated.containerHeaderPar 0 =
     [("pack_locators_pos", 0, 8), ("pack_count", 8, 2), ("pad0", 10, 26), ("free_data", 36, 24)] ∧
-    layoutSize Generated.containerHeaderPar = 60 := by
+    srcLayoutSize Generated.containerHeaderPar = 60 := by
   constructor <;> decide
 
-theorem contentHeader_reader_offsets : fieldOffsets Generated.contentHeaderPar 0 =
+theorem contentHeader_reader_offsets : srcFieldOffsets Generated.contentHeaderPar 0 =
     [("content_ptr_pos", 0, 8), ("cluster_ptr_pos", 8, 8), ("content_count", 16, 4),
      ("cluster_count", 20, 4), ("pad0", 24, 12), ("free_data", 36, 24)] ∧
-    layoutSize Generated.contentHeaderPar = 60 := by
+    srcLayoutSize Generated.contentHeaderPar = 60 := by
   constructor <;> decide
 
-theorem directoryHeader_reader_offsets : fieldOffsets Generated.directoryHeaderPar 0 =
+theorem directoryHeader_reader_offsets : srcFieldOffsets Generated.directoryHeaderPar 0 =
     [("index_ptr_pos", 0, 8), ("entry_store_ptr_pos", 8, 8), ("value_store_ptr_pos", 16, 8),
      ("index_count", 24, 4), ("entry_store_count", 28, 4), ("value_store_count", 32, 1),
-     ("pad0", 33, 3), ("free_data", 36, 24)] ∧ layoutSize Generated.directoryHeaderPar = 60 := by
+     ("pad0", 33, 3), ("free_data", 36, 24)] ∧ srcLayoutSize Generated.directoryHeaderPar = 60 := by
   constructor <;> decide
 
-theorem manifestHeader_reader_offsets : fieldOffsets Generated.manifestHeaderPar 0 =
+theorem manifestHeader_reader_offsets : srcFieldOffsets Generated.manifestHeaderPar 0 =
     [("pack_count", 0, 2), ("value_store_posinfo", 2, 8), ("pad0", 10, 26), ("free_data", 36, 24)] ∧
-    layoutSize Generated.manifestHeaderPar = 60 := by
+    srcLayoutSize Generated.manifestHeaderPar = 60 := by
   constructor <;> decide
 
 end Jubako
